@@ -209,6 +209,7 @@ def blocks_case(case):
     except Exception as e:  # noqa
         out['front'] = _err_of(e, src)
         out['front_exc'] = type(e).__name__
+        out['front_msg'] = str(e)[:120]
     return out
 
 
